@@ -94,3 +94,23 @@ Theorem C02_source_encode_url : forall (O : oracles) (B : backend) (s : str),
   same_outcome (gen_encode_url O B s) (encode_url O B s).
 Proof. exact gen_encode_url_ok. Qed.
 Print Assumptions C02_source_encode_url.
+
+(** Tie to the source by translation: yarl/_query.py itself.  query_var (the chain of type tests
+    in source order, inf and nan rejected with ValueError, bool and everything else with TypeError),
+    the two serialisers (the f-string's pieces, the quoter on key and on value text, query_var for
+    every value whose exact type is not str, list/tuple values expanded by the one and rejected by
+    the other, "&".join) and get_str_query (None, falsy, dict, str, Mapping, bytes, Sequence, in that
+    order) are re-read from the working tree on every run and proved equal to the model, for EVERY
+    value of the exact-type flags ([type(x) is str] vs [isinstance]): the fast paths and the general
+    ones must agree with the model separately. *)
+From Yarl Require Import Model.GenQTypes Generated.QueryGen Proofs.GenQueryFnsProofs.
+Theorem C02_source_query_functions : forall (B : backend) (exact_dict exact_str : bool),
+  (forall v, gen_query_var v = query_var v)
+  /\ (forall items, gen_get_str_query_from_iterable B exact_str items = str_query_from_items (Q B QUERY_PART_QUOTER) items)
+  /\ (forall items, gen_get_str_query_from_sequence_iterable B exact_str items = str_query_from_seq_items (Q B QUERY_PART_QUOTER) items)
+  /\ (forall q, gen_get_str_query B exact_dict exact_str q = get_query B q).
+Proof.
+  intros B ed es. split; [exact gen_query_var_ok|]. split; [apply gen_get_str_query_from_iterable_ok|].
+  split; [apply gen_get_str_query_from_sequence_iterable_ok|apply gen_get_str_query_ok].
+Qed.
+Print Assumptions C02_source_query_functions.
